@@ -62,6 +62,7 @@ def jobs(tier):
                      **(dict(sym_draws=3 if tier == 'quick' else 5) if unit == 'gen_func_call' else {}))
                 if unit in ('gen_func_call', 'gen_field_access')
                 else dict(nvars=nv))
+            extra.setdefault('sym_draws', 4 if tier == 'quick' else 6)
             out.append(Job('%s-%s' % (unit, lang), U.harness, dict(lang=lang, unit=unit, aspect=ASPECT, **extra),
                            split_depth=6, functions=U.FUNCS[unit], stubs=U.STUBS, require_events=['unit:%s' % unit],
                            budget_s=2400, crosscheck_every=500,
